@@ -455,6 +455,85 @@ def impl_encflags(a):
         return B.classify_exc(e)
 
 
+# ------------------------------------------------------------------ XmlVar.is_optional on one real attribute var
+_ISOPT_DEFAULTS = [  # (annotation, how the default is given, the default, what bindlib exports for it)
+    ("optstr", "default", None, None), ("str", "default", "", {"val": {"str": ""}}), ("str", "default", "abc", {"val": {"str": "abc"}}),
+    ("int", "default", 0, {"val": {"int": 0}}), ("int", "default", 7, {"val": {"int": 7}}),
+    ("bool", "default", False, {"val": {"bool": False}}), ("bool", "default", True, {"val": {"bool": True}}),
+    ("list", "factory", [], "list"), ("tuple", "factory", (), "list"), ("dict", "factory", {}, "dict"),
+    ("list", "factory", ["a", "b"], "other"), ("list", "factory", [""], "other"), ("tuple", "factory", ("a",), "other"),
+    ("dict", "factory", {"k": "v"}, "other"),
+]
+_ISOPT_VALUES = {
+    "optstr": [None, "", "abc"], "str": ["", "abc", "x"], "int": [0, 7, -1], "bool": [False, True],
+    "list": [[], ["a", "b"], ["a"], [""], ["b", "a"]], "tuple": [(), ("a",), ("a", "b")], "dict": [{}, {"k": "v"}, {"k": "w"}, {"j": "v"}],
+}
+
+
+def _isopt_val(x):
+    if x is None:
+        return None
+    if isinstance(x, (list, tuple)):
+        return {"list": [_isopt_val(i) for i in x]}
+    if isinstance(x, dict):
+        return {"attrs": [[k, v] for k, v in x.items()]}
+    return B.pval(x)
+
+
+def gen_isopt(rng, tier):
+    for ann, how, dv, exported in _ISOPT_DEFAULTS:
+        for value in _ISOPT_VALUES[ann]:
+            if exported == "other" and value == dv:
+                continue  # a factory of a non-empty collection is outside the model, only "differs from it" is known
+            # the builder never marks an Optional[...] field or an Attributes dict as required
+            for required in ((False,) if ann in ("optstr", "dict") else (False, True)):
+                yield {"required": required, "default": exported, "value": _isopt_val(value),
+                       "py": {"ann": ann, "how": how, "default": list(dv) if isinstance(dv, tuple) else dv,
+                              "value": list(value) if isinstance(value, tuple) else value}}
+
+
+_ISOPT_VARS = {}
+
+
+def impl_isopt(a):
+    from dataclasses import field, make_dataclass
+    from typing import Dict, List, Optional, Tuple
+
+    from xsdata.formats.dataclass.context import XmlContext
+
+    py = a["py"]
+    tup = py["ann"] == "tuple"
+    dv = tuple(py["default"]) if tup else py["default"]
+    value = tuple(py["value"]) if tup else py["value"]
+    key = json.dumps([py["ann"], py["how"], py["default"], a["required"]])
+    if key not in _ISOPT_VARS:
+        md = {"type": "Attributes" if py["ann"] == "dict" else "Attribute", "required": a["required"]}
+        if py["ann"] in ("list", "tuple"):
+            md["tokens"] = True
+        tp = {"optstr": Optional[str], "str": str, "int": int, "bool": bool, "list": List[str], "tuple": Tuple[str, ...], "dict": Dict[str, str]}[py["ann"]]
+        if py["how"] == "factory":
+            plain = {"list": list, "tuple": tuple, "dict": dict}[py["ann"]]
+            fld = field(default_factory=plain if not dv else (lambda dv=dv: type(dv)(dv)), metadata=md)
+        else:
+            fld = field(default=dv, metadata=md)
+        var = XmlContext().build(make_dataclass("OptHolder", [("f", tp, fld)])).get_all_vars()[0]
+        exported = B.Universe.export_default(None, var)
+        if exported != a["default"]:
+            return {"err": f"HARNESS: the var exports the default {exported!r}, the case says {a['default']!r}"}
+        if var.required != a["required"]:
+            return {"err": f"HARNESS: var.required is {var.required}"}
+        _ISOPT_VARS[key] = var
+    try:
+        return {"ok": bool(_ISOPT_VARS[key].is_optional(value))}
+    except Exception as e:  # noqa: BLE001
+        return B.classify_exc(e)
+
+
+def classify_isopt(a, o):
+    d = a["default"] if isinstance(a["default"], str) else ("none" if a["default"] is None else "val")
+    return f"{a['py']['ann']}:{d}:{'req' if a['required'] else 'opt'}:{o.get('ok', o.get('err'))}"
+
+
 CORRS = [
     Corr("dict.enc", gen_enc, impl_enc, compare=cmp_skip, classify=classify_enc,
          describe="DictEncoder.encode / JsonSerializer.render (+json.loads) vs model, both factories; the harness rejects non JSON-native outputs"),
@@ -473,6 +552,10 @@ CORRS = [
     Corr("dict.encflags", gen_encflags, impl_encflags, compare=cmp_skip, classify=classify_flags,
          describe="DictEncoder.encode(value, var, wrapped) on one real XmlVar (with / without wrapper, both flag values) over nested lists, "
                   "Enum members (plain, IntEnum / str mixed-in, over primitives and tuples), primitives, None and model instances vs encFlagsF"),
+    Corr("dict.isopt", gen_isopt, impl_isopt, classify=classify_isopt,
+         describe="XmlVar.is_optional(value) on one real attribute var (None / str / int / bool defaults incl. falsy ones, list / tuple / dict "
+                  "factories, factories of NON-EMPTY collections = DefaultV.other; required or not) vs isOptional; values equal to a "
+                  "non-empty factory result are left out (outside the model)"),
     Corr("c04.shared", gen_shared, impl_shared, spec=spec_shared, classify=classify_shared,
          describe="spec-level: several rich universes with equal class names and repeated documents through ONE XmlContext, encoder, decoder, "
                   "serializer and parser (both factories interleaved); expected: every step as with fresh objects"),
@@ -761,6 +844,6 @@ FINDINGS = {
 
 ORACLES = [
     Oracle("dict_json_roundtrip", oracle_gen, oracle_check, covered=covered, from_ops=("dict.roundtrip", "dict.enc"), adapt=oracle_adapt),
-    Oracle("shared_context_roundtrip", gen_shared, oracle_shared_check, from_ops=("c04.shared",)),
     Oracle("rich_types_roundtrip", oracle_rich_gen, oracle_rich_check, covered=covered_rich, from_ops=("c04.e2e",)),
+    Oracle("shared_context_roundtrip", gen_shared, oracle_shared_check, from_ops=("c04.shared",)),
 ]
